@@ -300,7 +300,11 @@ Definition spec_of (o : ndopt) : list rfc_opt :=
                 rp_valid := sat 4294967295 (d_secs v); rp_preferred := sat 4294967295 (d_secs p);
                 rp_prefix := network len addr |}]
   | ORdnss lt ss => [RRdnss (sat 4294967295 (d_secs lt)) ss]
-  | ODnssl lt ds => [RDnssl (sat 4294967295 (d_secs lt)) (map (split_on 46) ds)]
+  | ODnssl lt ds =>
+    match filter name_ok ds with
+    | d :: ds' => [RDnssl (sat 4294967295 (d_secs lt)) (map (split_on 46) (d :: ds'))]
+    | [] => []
+    end
   | OPref64 lt len addr =>
     if nat64_len_ok len then [RPref64 (pref64_lifetime (d_secs lt)) len (takeN 12 (network len addr))] else []
   | OCaptive u => [RCaptive u]
@@ -425,9 +429,29 @@ Proof.
   induction ds as [|d ds IH]; simpl; [lia|]. unfold enc_domain at 1. rewrite !app_length. simpl. lia.
 Qed.
 
+Lemma domain_ok_encodable (d : list N) : domain_ok d = true -> domain_encodable d = true.
+Proof.
+  unfold domain_ok, domain_encodable. intros H. rewrite forallb_forall in *. intros l Hl.
+  specialize (H l Hl). unfold label_ok in H. unfold label_encodable. rewrite !andb_true_iff in *. tauto.
+Qed.
+Lemma filter_id {A} (f : A -> bool) (l : list A) : forallb f l = true -> filter f l = l.
+Proof.
+  induction l as [|a l IH]; [reflexivity|]. simpl. rewrite andb_true_iff. intros [Ha Hl].
+  rewrite Ha, IH by exact Hl. reflexivity.
+Qed.
+Lemma filter_encodable_id (ds : list (list N)) : forallb domain_ok ds = true -> filter domain_encodable ds = ds.
+Proof.
+  intros H. apply filter_id. rewrite forallb_forall in *. intros d Hd. apply domain_ok_encodable, H, Hd.
+Qed.
+
 Lemma enc_as_dnssl lt ds : wf_opt (ODnssl lt ds) -> enc_as (ODnssl lt ds) (spec_of (ODnssl lt ds)).
 Proof.
-  intros (Hne & Hok & Hfit). right.
+  intros (Hne & Hok & Hfit).
+  pose proof (filter_encodable_id ds Hok) as Hfid.
+  assert (Hfid2 : filter name_ok ds = ds) by exact Hfid.
+  unfold enc_as, spec_of, enc_opt. cbv zeta. rewrite Hfid, Hfid2.
+  destruct ds as [|d0 ds0] eqn:Eds; [congruence|]. simpl is_nil. cbv iota. rewrite <- Eds in *. clear Eds.
+  right.
   set (ll := clamp 32 (as_secs lt)).
   assert (Hll : ll < 4294967296) by (unfold ll; rewrite clamp32_sat; pose proof (sat_le 4294967295 (as_secs lt)); lia).
   set (raw := flat_map enc_domain ds).
@@ -594,7 +618,8 @@ Proof.
   - destruct Ho as [Hl _]. rewrite Hl. reflexivity.
   - destruct Ho as (_ & _ & Hn). replace (1 + 2 * lenN servers <? 256) with true; [reflexivity|].
     symmetry. apply N.ltb_lt. lia.
-  - destruct Ho as (Hne & _ & Hfit). destruct (enc_domains_len domains Hne Hfit) as [Hb _].
+  - destruct Ho as (Hne & Hok & Hfit). rewrite (filter_encodable_id domains Hok).
+    destruct (enc_domains_len domains Hne Hfit) as [Hb _].
     rewrite cast8_small by lia.
     replace (lenN (enc_domains domains) / 8 =? 255) with false; [reflexivity|].
     symmetry. apply N.eqb_neq. lia.
@@ -692,9 +717,13 @@ Definition exp_opts (t : top) (i : intf) (e : env) : list rfc_opt :=
                 (map (self6_subst (e_self6 e)) (s :: ss))]
       | _ => [] end)
   ++ (match tri (i_dnssl i) (Some (t_dns_search t)) with
-      | Some (d :: ds) =>
-        [RDnssl (sat 4294967295 (d_secs (tri_or (i_dnssl_lifetime i) (secs 1800)))) (map (split_on 46) (d :: ds))]
-      | _ => [] end)
+      | Some l =>
+        match filter name_ok l with
+        | d :: ds =>
+          [RDnssl (sat 4294967295 (d_secs (tri_or (i_dnssl_lifetime i) (secs 1800)))) (map (split_on 46) (d :: ds))]
+        | [] => []
+        end
+      | None => [] end)
   ++ (match i_pref64 i with
       | Some p =>
         if nat64_len_ok (n_len p)
@@ -781,7 +810,9 @@ Proof.
     specialize (Hok _ eq_refl). rewrite forallb_forall in Hok. apply Hok, Ha. }
   f_equal.
   { rewrite cv_unwrap_tri, cv_always_tri.
-    destruct (tri (i_dnssl i) (Some (t_dns_search t))) as [[|d ds]|]; reflexivity. }
+    destruct (tri (i_dnssl i) (Some (t_dns_search t))) as [[|d ds]|]; try reflexivity.
+    simpl is_nil. cbv iota. change (flat_map spec_of [?x]) with (spec_of x ++ []).
+    unfold default_dns_lifetime. simpl flat_map. rewrite app_nil_r. reflexivity. }
   f_equal.
   { destruct (i_pref64 i) as [p|]; [|reflexivity]. simpl flat_map. rewrite app_nil_r. reflexivity. }
   rewrite cv_or_tri. destruct (tri (i_captive i) (t_captive t)); reflexivity.
@@ -923,7 +954,8 @@ Proof.
   - rewrite map_map. apply map_ext. intros p. simpl. apply sat_min.
   - intros l s. destruct (tri (i_rdnss i) (Some (v6_servers t))) as [[|a l0]|]; simpl; try tauto.
     intros [E|[]]. inversion E. reflexivity.
-  - intros l d. destruct (tri (i_dnssl i) (Some (t_dns_search t))) as [[|a l0]|]; simpl; try tauto.
+  - intros l d. destruct (tri (i_dnssl i) (Some (t_dns_search t))) as [l1|]; simpl; [|tauto].
+    destruct (filter name_ok l1) as [|a l0]; simpl; [tauto|].
     intros [E|[]]. inversion E. reflexivity.
   - intros l n p. destruct (i_pref64 i) as [p64|]; simpl; [|tauto].
     destruct (nat64_len_ok (n_len p64)); simpl; [|tauto].
